@@ -114,7 +114,7 @@ class C06(Check):
     GROUP = 12
     CASE_TIMEOUT = 60.0
     FAMILIES = ('ids', 'keys', 'xsitype', 'subst', 'fixed', 'wild', 'ns', 'mixed', 'assert11', 'big', 'multi', 'shadow', 'idfields',
-                'ondemand', 'deepkey', 'grouped', 'simple')
+                'ondemand', 'deepkey', 'grouped', 'simple', 'oddns')
     RULE = ("case = (schema family/version, pool document, API, lazy depth, thin_lazy, channel, delivery plan) "
             "drawn from the run seed; executed on a lazy XMLResource fed by a simulated stream/file/peer and "
             "compared with the eager reference of the same bytes computed in a pristine fork. Skeleton = "
